@@ -140,6 +140,29 @@ func TestVerif_C21(t *testing.T) {
 			x.Truncations(rng, "wrong")
 		}
 	})
+	// phase 2: many clients presenting the same credential pair at the same moment, against
+	// bcrypt-backed configurations (product cost and minimum cost)
+	r.Cases("conc", r.N(4, 40), func(i int, rng *verifkit.Rand) {
+		if aborted.Load() {
+			return
+		}
+		users, hashes := c21kit.GenHashedUsers(rng, i)
+		setup := c21kit.Setup{Class: "usable-user", Enforced: true, Users: users, SlowUnknown: true, Desc: map[string]any{"enabled": true, "required": true, "hashed_users": hashes}}
+		auths := socks5.CreateAuthenticators(socks5.AuthConfig{Enabled: true, Required: true, HashedUsers: hashes})
+		tgt, stop, err := c21kit.StartRecorded(auths, socks5.HashedCredentials(hashes))
+		if err != nil {
+			r.Inconclusive("start socks5.Server: " + err.Error())
+			aborted.Store(true)
+			return
+		}
+		defer stop()
+		x := &c21kit.Runner{R: r, Phase: "conc", Case: i, S: setup, T: tgt, Aborted: &aborted}
+		x.ConcurrentRounds(rng, r.N(9, 40))
+	})
+	r.Require("concurrent_rounds", 24)
+	r.Require("concurrent_rounds_overlapped", 16)
+	r.Require("concurrent_wrong_pair_refused", 100)
+	r.Require("concurrent_right_pair_served", 1)
 	r.Require("transcripts", 1500)
 	r.Require("transcripts_ws", 300)
 	r.Require("class_no-usable-user", 300)
